@@ -10,7 +10,6 @@ import (
 	"github.com/gogo/protobuf/protoc-gen-gogo/descriptor"
 )
 
-
 // ---------- byte level ----------
 
 // alphabet24 is the substitution alphabet of the quick tier: protobuf tag/length/continuation
